@@ -443,12 +443,12 @@ def _parseNormalTextgrid(data: str) -> Dict:
 
         # "-0" has been reported as a potential start time
         tierStartTimeStr = reSearch(
-            r"xmin ?= ?-?([\d.]+)\s*$", header, flags=re.MULTILINE
+            r"xmin ?= ?-?([\d.]+(?:[eE][-+]?\d+)?)\s*$", header, flags=re.MULTILINE
         ).groups()[0]
         tierStartTime = utils.strToIntOrFloat(tierStartTimeStr)
 
         tierEndTimeStr = reSearch(
-            r"xmax ?= ?([\d.]+)\s*$", header, flags=re.MULTILINE
+            r"xmax ?= ?([\d.]+(?:[eE][-+]?\d+)?)\s*$", header, flags=re.MULTILINE
         ).groups()[0]
         tierEndTime = utils.strToIntOrFloat(tierEndTimeStr)
 
@@ -457,10 +457,10 @@ def _parseNormalTextgrid(data: str) -> Dict:
         if tierType == INTERVAL_TIER:
             for element in tierData:
                 timeStart = reSearch(
-                    r"xmin ?= ?-?([\d.]+)\s*$", element, flags=re.MULTILINE
+                    r"xmin ?= ?-?([\d.]+(?:[eE][-+]?\d+)?)\s*$", element, flags=re.MULTILINE
                 ).groups()[0]
                 timeEnd = reSearch(
-                    r"xmax ?= ?([\d.]+)\s*$", element, flags=re.MULTILINE
+                    r"xmax ?= ?([\d.]+(?:[eE][-+]?\d+)?)\s*$", element, flags=re.MULTILINE
                 ).groups()[0]
                 label = reSearch(
                     r"text ?= ?\"(.*)\"\s*$",
@@ -474,7 +474,7 @@ def _parseNormalTextgrid(data: str) -> Dict:
         else:
             for element in tierData:
                 time = reSearch(
-                    r"number ?= ?-?([\d.]+)\s*$", element, flags=re.MULTILINE
+                    r"number ?= ?-?([\d.]+(?:[eE][-+]?\d+)?)\s*$", element, flags=re.MULTILINE
                 ).groups()[0]
                 label = reSearch(
                     r"mark ?= ?\"(.*)\"\s*$",
